@@ -132,6 +132,7 @@ class Ctx:
     def violation(self, kind, alg, case, witness):
         self.counters["violated"] += 1
         rec = {"property": self.prop, "kind": kind, "alg": alg, "case": plain(case), "witness": plain(witness)}
+        rec["hashseed"] = int(os.environ.get("PYTHONHASHSEED", "0") or 0)
         if getattr(self, "debug_logging", False):
             rec["debug_logging"] = True       # the shard ran with DEBUG logging on (rv/worker.py); the replay switches it on again
         # every violation is classified here, so that capping the recorded ones per class can never hide a new one
